@@ -7,6 +7,7 @@ package main
 import (
 	"fmt"
 	"sort"
+	"strconv"
 	"strings"
 )
 
@@ -126,24 +127,83 @@ func (s *mstate) clone() *mstate {
 
 func sorted(a []int) []int { b := cp(a); sort.Ints(b); return b }
 
+func appInts(b []byte, xs []int, sortIt bool) []byte {
+	if sortIt && len(xs) > 1 {
+		xs = sorted(xs)
+	}
+	b = append(b, '[')
+	for _, x := range xs {
+		b = strconv.AppendInt(b, int64(x), 10)
+		b = append(b, ' ')
+	}
+	return append(b, ']')
+}
+func appBool(b []byte, v bool) []byte {
+	if v {
+		return append(b, 'T')
+	}
+	return append(b, 'F')
+}
+
+// key identifies a state up to the order inside the lock queues (only idle locks, absent entries and idle callers
+// are abbreviated; this is the hot spot of the witness search)
 func (s *mstate) key() string {
-	var sb strings.Builder
-	for _, m := range s.locks {
+	b := make([]byte, 0, 256)
+	for i, m := range s.locks {
 		if m.writer == -1 && m.pending == -1 && len(m.readers)+len(m.wwait)+len(m.rblocked)+m.tokens == 0 {
-			sb.WriteString("-;")
 			continue
 		}
-		fmt.Fprintf(&sb, "%d/%d|%v|%v|%v|%d;", m.writer, m.pending, sorted(m.readers), sorted(m.wwait), sorted(m.rblocked), m.tokens)
+		b = strconv.AppendInt(b, int64(i), 10)
+		b = append(b, ':')
+		b = strconv.AppendInt(b, int64(m.writer), 10)
+		b = append(b, '/')
+		b = strconv.AppendInt(b, int64(m.pending), 10)
+		b = appInts(b, m.readers, true)
+		b = appInts(b, m.wwait, true)
+		b = appInts(b, m.rblocked, true)
+		b = strconv.AppendInt(b, int64(m.tokens), 10)
+		b = append(b, ';')
 	}
-	sb.WriteString("#")
-	for _, e := range s.table {
-		fmt.Fprintf(&sb, "%v.%d.%d.%d,", e.present, e.obj, e.rc, e.wc)
+	b = append(b, '#')
+	b = strconv.AppendInt(b, int64(len(s.locks)), 10)
+	b = append(b, '#')
+	for k, e := range s.table {
+		if !e.present {
+			continue
+		}
+		b = strconv.AppendInt(b, int64(k), 10)
+		b = append(b, '.')
+		b = strconv.AppendInt(b, int64(e.obj), 10)
+		b = append(b, '.')
+		b = strconv.AppendInt(b, int64(e.rc), 10)
+		b = append(b, '.')
+		b = strconv.AppendInt(b, int64(e.wc), 10)
+		b = append(b, ',')
 	}
-	sb.WriteString("#")
+	b = append(b, '#')
 	for i, t := range s.thr {
-		fmt.Fprintf(&sb, "%v%v%v%v%d%v%v|%v%v%d%v%v,", t.live, t.ks, t.write, t.objs, t.stage, t.todo, t.rem, t.blive, t.brel, t.bnext, t.brem, s.running[i])
+		if !t.live && !t.blive && !s.running[i] {
+			b = append(b, '-')
+			continue
+		}
+		b = appBool(b, t.live)
+		b = appInts(b, t.ks, false)
+		b = appBool(b, t.write)
+		b = appInts(b, t.objs, false)
+		b = strconv.AppendInt(b, int64(t.stage), 10)
+		for _, c := range t.todo {
+			b = appInts(b, c, false)
+		}
+		b = append(b, '|')
+		b = appInts(b, t.rem, false)
+		b = appBool(b, t.blive)
+		b = appBool(b, t.brel)
+		b = strconv.AppendInt(b, int64(t.bnext), 10)
+		b = appInts(b, t.brem, false)
+		b = appBool(b, s.running[i])
+		b = append(b, ',')
 	}
-	return sb.String()
+	return string(b)
 }
 
 // ---- acquisition order (calculateSortedMultiKeys) ----
